@@ -91,6 +91,7 @@ func vh_C17_L5_round_robin_fair() {
 	if vtier() > 0 {
 		events = 9
 	}
+	nf := 1 + vPick(2) // every message has nf fragments: with interleaving the unit of service is the chunk, not the message
 	var pushedSeq, poppedSeq [ns]int // per-stream FIFO counters
 	var backlog [ns]int
 	var servedSince [ns]int // services since the stream became backlogged
@@ -98,7 +99,7 @@ func vh_C17_L5_round_robin_fair() {
 	for e := 0; e < events; e++ {
 		if vPick(2) == 0 {
 			si := vPick(ns)
-			c := vFrag(uint16(si), uint16(pushedSeq[si]), 0, 1, false, 1)
+			c := vFrag(uint16(si), uint16(pushedSeq[si]/nf), pushedSeq[si]%nf, nf, false, 1)
 			pushedSeq[si]++
 			q.push(c)
 			if backlog[si] == 0 {
@@ -118,7 +119,7 @@ func vh_C17_L5_round_robin_fair() {
 			}
 			si := int(c.streamIdentifier)
 			vassert(q.pop(c) == nil, "popping the peeked chunk succeeds")
-			vassert(int(c.streamSequenceNumber) == poppedSeq[si], "chunks of one stream leave in the order they were queued")
+			vassert(int(c.streamSequenceNumber) == poppedSeq[si]/nf && int(c.fragmentSequenceNumber) == poppedSeq[si]%nf, "chunks of one stream leave in the order they were queued")
 			poppedSeq[si]++
 			backlog[si]--
 			servedSince[si]++
@@ -281,5 +282,72 @@ func vh_C17_L6_wfq_weights_from_options() {
 		}
 		vassert(lhs <= L*int(w2)+L*int(w1), "the configured weights govern the sharing (weight-normalised service within one chunk per stream)")
 	}
+	vcover("end")
+}
+
+// C17.L1b: what is negotiated comes from the INIT that establishes the association. A
+// listener receives two INITs before the handshake completes (a peer that restarted with
+// other settings, a stale INIT, an INIT collision): each advertises I-DATA support or not,
+// independently. After the second one the framing follows the second INIT only, and the
+// first user message the listener sends uses it.
+func vh_C17_L1_framing_follows_latest_init() {
+	localIl := vPick(2) == 1
+	b := vHandshakeEndpoint(localIl, false)
+	b.initServer()
+	mkInit := func(il bool) []byte {
+		init := &chunkInit{}
+		init.initiateTag, init.initialTSN = 1+nondetU32()%0xfffffffe, nondetU32()
+		init.numOutboundStreams, init.numInboundStreams = 10, 10
+		init.advertisedReceiverWindowCredit = 1 << 16
+		setSupportedExtensions(&init.chunkInitCommon, il)
+		raw, err := (&packet{sourcePort: 5000, destinationPort: 5000, chunks: []chunk{init}}).marshal(true)
+		vassert(err == nil, "INIT marshals")
+		return raw
+	}
+	il1, il2 := vPick(2) == 1, vPick(2) == 1
+	vInbound(b, mkInit(il1))
+	_ = vWriterWake(b)
+	vInbound(b, mkInit(il2))
+	vassert(b.peerInterleaving == il2 && b.peerIForwardTSN == il2 && b.peerForwardTSN, "what the peer supports is what its latest INIT lists")
+	vassert(b.useInterleaving == (localIl && il2), "interleaving is on exactly when this side enabled it and the latest INIT advertised it")
+	vassert(b.useIForwardTSN == b.useInterleaving && b.useForwardTSN == !b.useInterleaving, "the forward-TSN variant follows")
+	// the INIT ACK answers the latest INIT; complete the handshake with its cookie
+	var cookie []byte
+	for _, raw := range vWriterWake(b) {
+		if p := vDecode(raw); p != nil {
+			for _, c := range p.chunks {
+				if ack, ok := c.(*chunkInitAck); ok {
+					for _, prm := range ack.params {
+						if sc, ok := prm.(*paramStateCookie); ok {
+							cookie = sc.cookie
+						}
+					}
+				}
+			}
+		}
+	}
+	vassert(cookie != nil, "the latest INIT is answered with a cookie")
+	echo, err := (&packet{sourcePort: 5000, destinationPort: 5000, verificationTag: b.myVerificationTag, chunks: []chunk{&chunkCookieEcho{cookie: cookie}}}).marshal(true)
+	vassert(err == nil, "COOKIE ECHO marshals")
+	vInbound(b, echo)
+	vassert(b.getState() == established, "established")
+	_ = vWriterWake(b)
+	s, oerr := b.OpenStream(1, PayloadTypeWebRTCBinary)
+	vassert(oerr == nil, "open stream")
+	_, werr := s.WriteSCTP(nondetBytes(1), PayloadTypeWebRTCBinary)
+	vassert(werr == nil, "write accepted")
+	b.cwnd = 1 << 16
+	seen := false
+	for _, raw := range vWriterWake(b) {
+		if p := vDecode(raw); p != nil {
+			for _, c := range p.chunks {
+				if d, ok := c.(*chunkPayloadData); ok {
+					seen = true
+					vassert(d.isIData() == (localIl && il2), "user data is framed as negotiated with the peer that completed the handshake")
+				}
+			}
+		}
+	}
+	vassert(seen, "the message goes out")
 	vcover("end")
 }
